@@ -24,19 +24,24 @@ ASSUMPTIONS = [
 ]
 
 Assoc = relmodel.Assoc
+NI = 12        # integer observation slots of PROBE
 SCHEMA = relmodel.Schema('c04', [
     ('A', [('Id', 'unique_id'), ('K', 'integer'), ('N', 'integer'), ('Name', 'string'), ('Flag', 'boolean'),
            ('X', 'real'), ('Next_Id', 'unique_id')]),
     ('B', [('Id', 'unique_id'), ('K', 'integer'), ('N', 'integer'), ('A_Id', 'unique_id')]),
     ('C', [('Id', 'unique_id'), ('K', 'integer'), ('A_Id', 'unique_id'), ('B_Id', 'unique_id')]),
-    ('PROBE', [('Id', 'unique_id')] + [('i%d' % k, 'integer') for k in range(8)] + [('r%d' % k, 'real') for k in range(2)] +
+    # link class of the reflexive association class R4 on A (phrases 'one' / 'other'; the shape ooaofooa.mk_linked_association makes)
+    ('L', [('Id', 'unique_id'), ('K', 'integer'), ('One_Id', 'unique_id'), ('Other_Id', 'unique_id')]),
+    ('PROBE', [('Id', 'unique_id')] + [('i%d' % k, 'integer') for k in range(NI)] + [('r%d' % k, 'real') for k in range(2)] +
      [('s%d' % k, 'string') for k in range(2)] + [('f%d' % k, 'boolean') for k in range(2)]),
 ], [
     Assoc(1, 'B', ['A_Id'], True, True, '', 'A', ['Id'], False, True, ''),
     Assoc(2, 'A', ['Next_Id'], False, True, 'prev', 'A', ['Id'], False, True, 'next'),
     Assoc(3, 'C', ['A_Id'], True, True, '', 'A', ['Id'], False, False, ''),
     Assoc(3, 'C', ['B_Id'], True, True, '', 'B', ['Id'], False, False, ''),
-], [('A', 'I1', ['Id']), ('B', 'I1', ['Id']), ('C', 'I1', ['Id'])])
+    Assoc(4, 'L', ['One_Id'], True, True, 'one', 'A', ['Id'], False, False, 'other'),
+    Assoc(4, 'L', ['Other_Id'], True, True, 'other', 'A', ['Id'], False, False, 'one'),
+], [('A', 'I1', ['Id']), ('B', 'I1', ['Id']), ('C', 'I1', ['Id']), ('L', 'I1', ['Id'])])
 
 V = lambda n: ('var', n)
 I = lambda n: ('int', str(n))
@@ -52,6 +57,8 @@ IF = lambda c, blk, elifs=(), els=None: ('if', c, list(blk), [(ec, list(eb)) for
 
 def probe_statements(env):
     '''OAL statements copying every variable of the outermost scope into a PROBE instance.'''
+    # programs over the link class L hold more handles: they use all NI integer slots, the others the first 8
+    ni = NI if any(isinstance(v, (E.Handle, E.InstSet)) and v.kind == 'L' for v in env.values()) else 8
     out = [('create', 'zz_', 'PROBE')]
     n = dict(i=0, r=0, s=0, f=0)
 
@@ -62,7 +69,7 @@ def probe_statements(env):
     for name in sorted(env):
         v = env[name]
         t = E.type_of(v)
-        if t == 'integer' and n['i'] < 8:
+        if t == 'integer' and n['i'] < ni:
             out.append(ASG(F('zz_', 'i%d' % slot('i')), V(name)))
         elif t == 'real' and n['r'] < 2:
             out.append(ASG(F('zz_', 'r%d' % slot('r')), V(name)))
@@ -70,13 +77,13 @@ def probe_statements(env):
             out.append(ASG(F('zz_', 's%d' % slot('s')), V(name)))
         elif t == 'boolean' and n['f'] < 2:
             out.append(ASG(F('zz_', 'f%d' % slot('f')), V(name)))
-        elif isinstance(v, E.Handle) and n['i'] < 8:
+        elif isinstance(v, E.Handle) and n['i'] < ni:
             k = slot('i')
             if v.idx is None:
                 out.append(IF(U('empty', V(name)), [ASG(F('zz_', 'i%d' % k), I(77))]))
             else:
                 out.append(IF(U('not_empty', V(name)), [ASG(F('zz_', 'i%d' % k), B('+', I(100), F(name, 'K')))]))
-        elif isinstance(v, E.InstSet) and n['i'] < 7:
+        elif isinstance(v, E.InstSet) and n['i'] < ni - 1:
             k, k2 = slot('i'), slot('i')
             out.append(ASG(F('zz_', 'i%d' % k), U('cardinality', V(name))))
             out.append(('foreach', 'q_', name, [ASG(F('zz_', 'i%d' % k2), B('+', B('*', F('zz_', 'i%d' % k2), I(10)), F('q_', 'K')))], True))
@@ -91,7 +98,65 @@ def names_of(env, pred):
     return sorted(n for n, v in env.items() if pred(v))
 
 
-def menu(env, ref, tier, core_only=False):
+def menu_r4(env, full=True):
+    '''Statements over the reflexive association class R4 (A -L- A, phrases 'one'/'other'): relate / unrelate using a link
+    instance in both phrasings, and selections from both participants and from the link instance (one/any/many, one- and
+    two-step chains, both phrases).  The generated probes add cardinality / empty / not_empty observations of every result.'''
+    hsA = names_of(env, lambda v: isinstance(v, E.Handle) and v.kind == 'A')[:3]
+    hsL = names_of(env, lambda v: isinstance(v, E.Handle) and v.kind == 'L')[:2]
+    setsA = names_of(env, lambda v: isinstance(v, E.InstSet) and v.kind == 'A')[:1]
+    setsL = names_of(env, lambda v: isinstance(v, E.InstSet) and v.kind == 'L')[:1]
+    out = []
+    for x in hsA:
+        for y in hsA:
+            if x == y and not full:
+                continue
+            for l in hsL:
+                for ph in ('one', 'other'):
+                    out.append(('relate', x, y, 'R4', T(ph), l))
+                    out.append(('unrelate', x, y, 'R4', T(ph), l))
+    for h in hsA + setsA:
+        for ph in ('one', 'other'):
+            out.append(('selrel', 'many', 'ls', V(h), [('L', 'R4', T(ph))], None))
+            out.append(('selrel', 'many', 'as_', V(h), [('A', 'R4', T(ph))], None))
+            out.append(('selrel', 'any', 'x', V(h), [('A', 'R4', T(ph))], None))
+            out.append(('selrel', 'any', 'lx', V(h), [('L', 'R4', T(ph))], None))
+            if full:
+                out.append(('selrel', 'one', 'x', V(h), [('A', 'R4', T(ph))], None))
+                out.append(('selrel', 'one', 'lx', V(h), [('L', 'R4', T(ph))], None))
+                out.append(('selrel', 'many', 'as_', V(h), [('L', 'R4', T(ph)), ('A', 'R4', T(ph))], None))
+    for l in hsL + setsL:
+        for ph in ('one', 'other'):
+            out.append(('selrel', 'many' if l in setsL else 'one', 'as_' if l in setsL else 'x', V(l), [('A', 'R4', T(ph))], None))
+            if full and l in hsL:
+                out.append(('selrel', 'many', 'as_', V(l), [('A', 'R4', T(ph))], None))
+    for l in hsL:
+        out.append(('delete', l))
+    for h in hsA:
+        out.append(('delete', h))
+    return out
+
+
+def menu(env, ref, tier, core_only=False, focus=None):
+    if focus == 'R4':
+        out = menu_r4(env, full=not core_only)
+        nA = len([i for i in ref.insts if i.kind == 'A'])
+        nL = len([i for i in ref.insts if i.kind == 'L'])
+        if nA < 3:
+            out.append(('create', 'a%d' % (nA + 1), 'A'))
+        if nL < 2:
+            out.append(('create', 'l%d' % (nL + 1), 'L'))
+        for h in names_of(env, lambda v: isinstance(v, E.Handle) and v.kind in ('A', 'L')):
+            v = env[h]
+            if v.idx is not None and ref.insts[v.idx].alive and ref.insts[v.idx].values.get('K') == 0:
+                out.append(ASG(F(h, 'K'), I(1 + len([i for i in ref.insts if i.kind == v.kind and i.values.get('K')]))))
+        for sname in names_of(env, lambda v: isinstance(v, E.InstSet) and v.kind in ('A', 'L'))[:2]:
+            out.append(('return', U('cardinality', V(sname))))
+            out.append(('return', U('empty', V(sname))))
+        for h in names_of(env, lambda v: isinstance(v, E.Handle) and v.kind in ('A', 'L'))[:2]:
+            out.append(('return', U('not_empty', V(h))))
+            out.append(('return', V(h)))
+        return out
     ints = names_of(env, lambda v: E.type_of(v) == 'integer')
     bools = names_of(env, lambda v: E.type_of(v) == 'boolean')
     strs = names_of(env, lambda v: E.type_of(v) == 'string')
@@ -468,11 +533,22 @@ SETUPS = [
      ('relate', 'a2', 'b1', 'R3', None, 'c1'), ('relate', 'b1', 'a3', 'R1', None, None),
      ('relate', 'a1', 'a2', 'R2', T('prev'), None), ('relate', 'a2', 'a3', 'R2', T('prev'), None),
      ('selfrom', 'many', 'as_', 'A', None, True), ASG(V('i'), I(0)), ASG(V('s'), S('x')), ASG(V('f'), FALSE)],
+    # reflexive association class: one linked pair, a spare participant and a spare link instance
+    [('create', 'a1', 'A'), ASG(F('a1', 'K'), I(1)), ('create', 'a2', 'A'), ASG(F('a2', 'K'), I(2)), ('create', 'a3', 'A'), ASG(F('a3', 'K'), I(3)),
+     ('create', 'l1', 'L'), ASG(F('l1', 'K'), I(1)), ('create', 'l2', 'L'), ASG(F('l2', 'K'), I(2)),
+     ('relate', 'a1', 'a2', 'R4', T('one'), 'l1')],
+    # reflexive association class: a1 is the start of two links (fan-out), one of them made in the other phrasing
+    [('create', 'a1', 'A'), ASG(F('a1', 'K'), I(1)), ('create', 'a2', 'A'), ASG(F('a2', 'K'), I(2)), ('create', 'a3', 'A'), ASG(F('a3', 'K'), I(3)),
+     ('create', 'l1', 'L'), ASG(F('l1', 'K'), I(1)), ('create', 'l2', 'L'), ASG(F('l2', 'K'), I(2)),
+     ('relate', 'a1', 'a2', 'R4', T('one'), 'l1'), ('relate', 'a3', 'a1', 'R4', T('other'), 'l2')],
 ]
+# menu used below a setup: None = the general menu, 'R4' = the statements over the reflexive association class only
+SETUP_FOCUS = [None, None, None, 'R4', 'R4']
+POPULATION_CHANGING = ('relate', 'unrelate', 'delete', 'create')
 
 
 def expand(sub, task):
-    tier, depth_left, prefix = task
+    tier, depth_left, prefix, focus = task
     try:
         _, ref, env = run_reference(prefix)
     except E.OutOfDomain:
@@ -481,7 +557,7 @@ def expand(sub, task):
         return []       # the prefix already returned / stopped
     out = []
     core_only = depth_left <= 1 and len(prefix) > 0 and tier == 'quick' and False
-    for s in explorer.rotate(menu(env, ref, tier, core_only=(tier == 'quick' and depth_left < DEPTH[tier])), sub.seed):
+    for s in explorer.rotate(menu(env, ref, tier, core_only=(tier == 'quick' and depth_left < DEPTH[tier]), focus=focus), sub.seed):
         prog = prefix + [s]
         sub.count('candidates')
         status, res = check_program(sub, prog, 'seq')
@@ -494,7 +570,8 @@ def expand(sub, task):
             sub.distinct('nontrivial', repr(prog))
         if status == 'ok':
             ref2, env2 = res
-            if env2 is not None:
+            # below a focused setup only statements that change the population lead to states that are expanded further
+            if env2 is not None and (focus is None or s[0] in POPULATION_CHANGING):
                 out.append((canon(ref2, env2), s))
     return out
 
@@ -509,6 +586,158 @@ def has_loop_or_where(s):
     return False
 
 
+# ---------------------------------------------------------------------------
+# select any/one ... related by ... where: the choice among matching instances is left open
+# ---------------------------------------------------------------------------
+
+def fan_population(order):
+    """A population with fan-out along every relationship; *order* permutes the order in which the to-many links are made
+    (the order in which a chain delivers the related instances), so that every position of the instance(s) satisfying a
+    where clause occurs."""
+    p = []
+    for i, (n, flag) in enumerate(((0, False), (2, True), (1, False)), 1):
+        p += [('create', 'a%d' % i, 'A'), ASG(F('a%d' % i, 'K'), I(i)), ASG(F('a%d' % i, 'N'), I(n))]
+        if flag:
+            p.append(ASG(F('a%d' % i, 'Flag'), TRUE))
+    for i, n in enumerate((1, 0, 2), 1):
+        p += [('create', 'b%d' % i, 'B'), ASG(F('b%d' % i, 'K'), I(i)), ASG(F('b%d' % i, 'N'), I(n))]
+    for i in (1, 2):
+        p += [('create', 'c%d' % i, 'C'), ASG(F('c%d' % i, 'K'), I(i)), ('create', 'l%d' % i, 'L'), ASG(F('l%d' % i, 'K'), I(i))]
+    r1 = [('relate', 'b%d' % i, 'a1', 'R1', None, None) for i in (1, 2, 3)]
+    r3 = [('relate', 'a1', 'b1', 'R3', None, 'c1'), ('relate', 'a1', 'b3', 'R3', None, 'c2')]
+    r4 = [('relate', 'a1', 'a2', 'R4', T('one'), 'l1'), ('relate', 'a1', 'a3', 'R4', T('one'), 'l2')]
+    p += [r1[k] for k in order]
+    p += [r3[k] for k in order if k < 2]
+    p += [r4[k] for k in order if k < 2]
+    p += [('relate', 'a1', 'a2', 'R2', T('prev'), None), ('relate', 'a2', 'a3', 'R2', T('prev'), None),
+          ('selfrom', 'many', 'as_', 'A', None, True), ASG(V('i'), I(2))]
+    return p
+
+
+FAN_ORDERS = {'quick': [[0, 1, 2], [2, 1, 0]], 'thorough': [[0, 1, 2], [0, 2, 1], [1, 0, 2], [1, 2, 0], [2, 0, 1], [2, 1, 0]]}
+# (start variable, chain); the last class of the chain is the class of `selected`
+ANYREL_CHAINS = [
+    ('a1', [('B', 'R1', None)]), ('as_', [('B', 'R1', None)]), ('b2', [('A', 'R1', None), ('B', 'R1', None)]),
+    ('a1', [('B', 'R3', None)]), ('a1', [('C', 'R3', None)]), ('a1', [('C', 'R3', None), ('B', 'R3', None)]),
+    ('a1', [('A', 'R4', T('one'))]), ('a1', [('L', 'R4', T('one'))]), ('a1', [('L', 'R4', T('one')), ('A', 'R4', T('one'))]),
+    ('a2', [('A', 'R4', T('other'))]), ('as_', [('A', 'R4', T('other'))]), ('l2', [('A', 'R4', T('one'))]),
+    ('a1', [('A', 'R2', T('prev'))]), ('as_', [('A', 'R2', T('prev'))]), ('a1', [('A', 'R2', T('prev')), ('A', 'R2', T('prev'))]),
+]
+_SEL = ('selected',)
+ANYREL_WHERES = [
+    B('==', ('field', _SEL, 'K'), I(1)), B('==', ('field', _SEL, 'K'), I(2)), B('==', ('field', _SEL, 'K'), I(3)),
+    B('<', ('field', _SEL, 'K'), I(3)), B('>', ('field', _SEL, 'K'), I(3)),
+    B('>=', ('field', _SEL, 'K'), V('i')),                                                     # a variable of the enclosing block
+]
+ANYREL_WHERES_THOROUGH = [B('>', ('field', _SEL, 'K'), I(1)),
+                          U('not', B('or', B('==', ('field', _SEL, 'K'), I(1)), B('==', ('field', _SEL, 'K'), I(2))))]
+ANYREL_WHERES_AB = [B('==', ('field', _SEL, 'N'), I(0)), B('>=', ('field', _SEL, 'N'), I(1))]     # classes A and B have N
+
+
+def anyrel_cases(tier):
+    out = []
+    for order in FAN_ORDERS[tier]:
+        for ci, (start, chain) in enumerate(ANYREL_CHAINS):
+            wheres = anyrel_wheres(chain, tier)
+            for wi in range(len(wheres)):
+                for card, variant in (('any', 'instance'), ('any', 'oal'), ('one', 'instance')) + ((('one', 'oal'),) if tier == 'thorough' else ()):
+                    out.append(dict(family='anyrel', order=order, chain=ci, where=wi, card=card, variant=variant))
+    return out
+
+
+def anyrel_wheres(chain, tier='thorough'):
+    # the index of a clause in this list is what a replay case records: only append
+    w = ANYREL_WHERES + (ANYREL_WHERES_AB if chain[-1][0] in 'AB' else [ANYREL_WHERES[0]] * len(ANYREL_WHERES_AB))
+    return w + (ANYREL_WHERES_THOROUGH if tier == 'thorough' else [])
+
+
+def check_anyrel(ctx, case):
+    """
+    `select any|one v related by <start>-><chain> where (<clause>)`: with S = the instances the same chain and clause
+    select with `select many` in the reference, v must be empty exactly when S is empty and otherwise be a member of S
+    (which member is not compared).  `one` is only used where the chain itself (without the clause) reaches at most
+    one instance.  variant 'instance': the body returns v; 'oal': the body tests empty / not_empty itself and returns the
+    key K of v.  The final population must be the unchanged one.
+    """
+    start, chain = ANYREL_CHAINS[case['chain']]
+    where = anyrel_wheres(chain)[case['where']]
+    card = case['card']
+    pop = fan_population(case['order'])
+    try:
+        _, ref, env = run_reference(pop + [('selrel', 'many', 'vs_', V(start), chain, None), ('selrel', 'many', 'ws_', V(start), chain, where)])
+    except E.OutOfDomain:
+        return 'ood'
+    reach, S = list(env['vs_'].idxs), list(env['ws_'].idxs)
+    if card == 'one' and len(reach) > 1:
+        return 'ood'
+    sel = ('selrel', card, 'v', V(start), chain, where)
+    if case['variant'] == 'instance':
+        prog = pop + [sel, ('return', V('v'))]
+    else:
+        prog = pop + [sel, IF(U('empty', V('v')), [('return', U('-', I(1)))]), IF(U('not_empty', V('v')), [('return', F('v', 'K'))]),
+                      ('return', U('-', I(2)))]
+    _, ref, _ = run_reference(pop)
+    text, _ = A.assemble(A.print_program(prog), A.Layout(default=' '))
+    ctx.count('runs')
+    ctx.count('anyrel_runs')
+    sig = 'c04:anyrel:%s' % card
+    try:
+        got, obs, values, sizes = run_real(text, ref)
+    except core.Timeout:
+        ctx.violation(sig + ':hang', case, 'program does not terminate within 10 s: %s' % text, None, 'timeout', unit_test=unit_test(text))
+        return 'bad'
+    except Exception as e:
+        ctx.violation(sig + ':crash:%s' % type(e).__name__, case, 'interpreter raised %s: %s on: %s' % (type(e).__name__, e, text),
+                      None, type(e).__name__, unit_test=unit_test(text))
+        return 'bad'
+    if case['variant'] == 'instance':
+        chosen = got[1] if got is not None and got[0] == 'inst' else None
+        shape_ok = got is None or got[0] == 'inst'
+    else:
+        shape_ok = got is not None and got[0] == 'num' and got[1] != -2.0
+        chosen = None
+        if shape_ok and got[1] != -1.0:
+            ks = [i for i in ref.order[ref._kind(chain[-1][0])] if float(ref.insts[i].values['K']) == got[1]]
+            chosen = ks[0] if ks else '?'
+    expected = 'nothing' if not S else 'one of the instances %s' % S
+    if not shape_ok:
+        ctx.violation(sig + ':result-shape', case, 'returned %r, expected %s for: %s' % (got, expected, text), expected, got, unit_test=unit_test(text))
+        return 'bad'
+    if chosen is None and S:
+        ctx.violation(sig + ':empty-although-a-related-instance-satisfies-the-clause', case,
+                      'selected nothing; the related instances are %s, of which %s satisfy the clause: %s' % (reach, S, text),
+                      expected, got, unit_test=unit_test(text))
+        return 'bad'
+    if chosen is not None and chosen not in S:
+        ctx.violation(sig + ':selected-instance-not-among-the-matching', case,
+                      'selected instance %r; the related instances are %s, of which %s satisfy the clause: %s' % (chosen, reach, S, text),
+                      expected, got, unit_test=unit_test(text))
+        return 'bad'
+    exp_sizes = dict((k, len(v)) for k, v in ref.order.items())
+    d = None if sizes == exp_sizes else 'instance counts %s, expected %s' % (sizes, exp_sizes)
+    d = d or relmodel.diff_obs(ref.observe(), obs)
+    if not d and ref_values(ref) != values:
+        d = 'attribute values differ'
+    if d:
+        ctx.violation(sig + ':population-changed', case, '%s after: %s' % (d, text), None, None, unit_test=unit_test(text))
+        return 'bad'
+    ctx.count('traces')
+    ctx.count('anyrel_nonempty' if S else 'anyrel_empty')
+    if S and reach and reach[0] not in S:
+        ctx.count('anyrel_first_related_fails_later_matches')
+    ctx.distinct('nontrivial', repr(prog[len(pop):]) + repr(case['order']))
+    return 'ok'
+
+
+def anyrel_task(sub, cases):
+    for case in cases:
+        sub.count('candidates')
+        if check_anyrel(sub, case) == 'ood':
+            sub.count('out_of_domain')
+        else:
+            sub.count('transitions')
+
+
 DEPTH = {'quick': 2, 'thorough': 3}
 
 
@@ -516,33 +745,40 @@ def run(ctx):
     depth = DEPTH[ctx.tier]
     seen = {}
     frontier = []
-    for setup in SETUPS:
+    for setup, focus in zip(SETUPS, SETUP_FOCUS):
         _, ref, env = run_reference(setup)
         k = canon(ref, env)
         seen[k] = setup
-        frontier.append(setup)
+        frontier.append((setup, focus))
         status, _ = check_program(ctx, setup, 'setup')
         ctx.require(status == 'ok', 'a setup program is not accepted on both sides (%s)' % status)
     for level in range(depth):
-        tasks = [(ctx.tier, depth - level, p) for p in frontier]
+        tasks = [(ctx.tier, depth - level, p, focus) for p, focus in frontier]
         results = ctx.pmap(expand, tasks, chunk=1)
         nxt = []
-        for p, succ in zip(frontier, results):
+        for (p, focus), succ in zip(frontier, results):
             for k, s in succ:
                 if k not in seen:
                     seen[k] = p + [s]
-                    nxt.append(p + [s])
+                    nxt.append((p + [s], focus))
         print('  depth %d: %d prefixes expanded, %d new states, t=%.0fs' % (level + 1, len(frontier), len(nxt), ctx.elapsed()), flush=True)
         frontier = nxt
         if ctx.time_left() < 0:
             ctx.cap('time budget reached after depth %d' % (level + 1))
             break
-    ctx.count('states', len(seen))
+    cases = anyrel_cases(ctx.tier)
+    cases = explorer.rotate(cases, ctx.seed)
+    ctx.pmap(anyrel_task, [cases[i:i + 40] for i in range(0, len(cases), 40)])
+    ctx.count('states', len(seen) + len(FAN_ORDERS[ctx.tier]))
     longest = max(seen.values(), key=len)
     ctx.sample(dict(program=A.assemble(A.print_program(longest))[0]))
     ctx.sample(dict(program=A.assemble(A.print_program(SETUPS[2] + [menu(*(_env_of(SETUPS[2])), tier='thorough')[-3]]))[0]))
     ctx.require(ctx.n('runs') >= 3000, 'too few interpreter runs (%d)' % ctx.n('runs'))
     ctx.require(ctx.nd('stmt_kinds') >= 30, 'too few statement kinds exercised (%d)' % ctx.nd('stmt_kinds'))
+    ctx.require(ctx.n('anyrel_first_related_fails_later_matches') >= 40, 'too few selections where the first related instance '
+                'fails the where clause and a later one satisfies it (%d)' % ctx.n('anyrel_first_related_fails_later_matches'))
+    ctx.require(ctx.n('anyrel_empty') >= 40, 'too few selections along chains where no related instance satisfies the clause (%d)'
+                % ctx.n('anyrel_empty'))
     ctx.require(ctx.nd('nontrivial') >= 300, 'too few programs with loops / conditionals / where clauses (%d)' % ctx.nd('nontrivial'))
 
 
@@ -552,6 +788,9 @@ def _env_of(prog):
 
 
 def replay(ctx, case):
+    if case.get('family') == 'anyrel':
+        check_anyrel(ctx, case)
+        return
     check_program(ctx, case['prog'], case.get('family', 'seq'))
 
 
